@@ -419,7 +419,7 @@ def run_ds(cfg, choose):
     rec.update({'kind': 'ds', 'events': sched.events, 'delivered': delivered, 'end': end,
                 'alive': len(alive), 'deadlock': bool(sched.deadlock), 'nback': nev,
                 'len_ok': bool(len_ok), 'backend': 't', 'controlled': True,
-                'shape': 'range', 'seq': []})
+                'shape': 'range', 'seq': [], 'seq_out': 'returned'})
     return rec, sched
 
 
@@ -480,7 +480,23 @@ def run_shared(cfg, choose):
 
     def vcode(x):
         return codes.get(json.dumps(to_json(x), sort_keys=True), 0)
-    cfg = dict(cfg, n=len(plain), fn_fail=[], fail_kind='filter', cfe=0)
+    # failures of the mapped function are injected by VALUE (only when the
+    # values are distinct, so that "the item" is well defined); the expected
+    # outcome is that of the plain sequential pipeline with the same function
+    fn_fail = sorted(set(cfg.get('fn_fail', ()))) if len(codes) == len(plain) else []
+    fn_fail = [c for c in fn_fail if c <= len(plain)]
+    kind = cfg.get('fail_kind', 'filter')
+    cfe = 1 if (cfg.get('cfe') and cfg['api'] == 'prefetch') else 0
+    exc = _fail_exc(kind)
+    seq, seq_out = [], 'returned'
+    for j in plain:
+        if codes[j] in fn_fail:
+            if cfe and kind == 'filter':
+                continue
+            seq_out = 'raised_fn'
+            break
+        seq.append(codes[j])
+    cfg = dict(cfg, n=len(plain), fn_fail=fn_fail, fail_kind=kind, cfe=cfe)
     ctl = detsched.Controlled(choose, line_files=(core.__file__,))
     with ctl as sched, warnings.catch_warnings():
         warnings.simplefilter('ignore')
@@ -492,6 +508,9 @@ def run_shared(cfg, choose):
             sched.point('call')
             sched.log('call', c)
             sched.point('ret')
+            if c in fn_fail:
+                sched.log('ret', c, 0)
+                raise exc(c)
             sched.log('ret', c, 1)
             return x
         delivered = []
@@ -500,10 +519,11 @@ def run_shared(cfg, choose):
         try:
             fresh = build(cfg['prog'])
             if cfg['api'] == 'prefetch':
-                ds = fresh.map(fn).prefetch(cfg['w'], cfg['buf'])
+                ds = fresh.map(fn).prefetch(cfg['w'], cfg['buf'],
+                                            catch_filter_exception=True if cfe else None)
             else:
                 ds = fresh.map(fn, num_workers=cfg['w'], buffer_size=cfg['buf'])
-            len_ok = len(ds) == n_plain
+            len_ok = cfe == 1 or len(ds) == n_plain
             gen = iter(ds)
             if cfg['stop'] == 'close' and cfg['stop_k'] == 0:
                 gen.close()
@@ -525,6 +545,8 @@ def run_shared(cfg, choose):
                         break
         except Abort:
             end = sched.abort_reason
+        except (OtherError, _fail_exc('filter')):
+            end = 'raised_fn'
         except BaseException as e:
             end = 'raised_other_' + type(e).__name__
         nev = len(sched.events)
@@ -534,5 +556,5 @@ def run_shared(cfg, choose):
     rec.update({'kind': 'ds', 'events': sched.events, 'delivered': delivered, 'end': end,
                 'alive': len(alive), 'deadlock': bool(sched.deadlock), 'nback': nev,
                 'len_ok': bool(len_ok), 'backend': 't', 'controlled': True,
-                'shape': 'pipeline', 'seq': [codes[j] for j in plain]})
+                'shape': 'pipeline', 'seq': seq, 'seq_out': seq_out})
     return rec, sched
